@@ -1415,7 +1415,20 @@ class SpaceManager(SharedSpaceOperations):
     def new_cells(self, space, name=None, formula=None, data=None,
                   is_derived=False, is_cached=True):
 
-        # FIX: Creating a Cells of the same name in ``space``
+        if not is_valid_name(name):
+            # The cells is named after its formula, or automatically
+            # (as in CellsImpl.__init__): the name the cells is going
+            # to have is the one to check, not the one passed.
+            name = None
+            if formula:
+                fname = Formula(formula).name
+                if is_valid_name(fname):
+                    name = fname
+            if name is None:
+                while True:
+                    name = space.cellsnamer.get_next(space.namespace)
+                    if self._can_add(space, name, CellsImpl):
+                        break
 
         if not self._can_add(space, name, CellsImpl):
             raise ValueError("Cannot create cells '%s'" % name)
